@@ -1,0 +1,335 @@
+//go:build verif
+
+package stackage
+
+/*
+verif_on.go is compiled only with the `verif` build tag. It offers
+the seams a deterministic simulator needs: yield/probe points inside
+lock(), unlock() and config(), a raw state dump of a Stack/Condition
+(including every configuration field, by reflection), an identity
+function and a setter for the package clock. Nothing here is reachable
+without the tag; verif_off.go supplies the empty verifPoint.
+*/
+
+import (
+	"reflect"
+	"sort"
+	"strconv"
+	"time"
+	"unsafe"
+)
+
+/*
+VerifHook, when non-nil, is invoked at every instrumented point:
+
+  - "lock.want"     immediately before mutex.Lock()
+  - "lock.held"     immediately after  mutex.Lock()
+  - "lock.released" immediately after  mutex.Unlock()
+  - "cfg.read"      at the top of (*stack).config()
+
+inst is the address of the *stack the call was made on (for config()
+this may be the address of a local copy of the slice header), cfg is
+the address of the configuration record in slot 0 (0 if slot 0 does
+not hold one) and lock is the address of the stack's mutex (0 if none).
+*/
+var VerifHook func(point string, inst, cfg, lock uintptr)
+
+func verifPoint(p string, r *stack) {
+	h := VerifHook
+	if h == nil || r == nil {
+		return
+	}
+	var ca, la uintptr
+	if len(*r) > 0 {
+		if c, ok := (*r)[0].(*nodeConfig); ok && c != nil {
+			ca = uintptr(unsafe.Pointer(c))
+			if c.mtx != nil {
+				la = uintptr(unsafe.Pointer(c.mtx))
+			}
+		}
+	}
+	h(p, uintptr(unsafe.Pointer(r)), ca, la)
+}
+
+/*
+VerifSetClock replaces the package clock (the `now` variable read by
+lock()); nil restores time.Now.
+*/
+func VerifSetClock(f func() time.Time) {
+	if f == nil {
+		f = time.Now
+	}
+	now = f
+}
+
+/*
+VerifField is one field of the configuration record, rendered without
+addresses: Text is canonical text, Ptr carries an identity (code pointer
+of a closure, address of a map/logger) for the caller to translate into
+a name of its own; Ptr is never part of Text.
+*/
+type VerifField struct {
+	Name string
+	Text string
+	Ptr  uintptr
+}
+
+/*
+VerifState is the raw state of one Stack or Condition instance.
+*/
+type VerifState struct {
+	Kind   string // "stack", "cond", "zero-stack", "zero-cond", "broken-stack", "other"
+	Inst   uintptr
+	Cfg    uintptr
+	Fields []VerifField
+	Slots  []any // stack: user slots 1..n, raw
+	Kw     string
+	Op     Operator
+	Ex     any
+}
+
+/*
+VerifID returns the identity of the instance embedded in x (a Stack,
+a Condition, an alias of either, or a pointer to one): the address of
+the embedded *stack / *condition and the address of its configuration
+record. kind is "stack", "cond" or "" if x is neither (or is zero).
+*/
+func VerifID(x any) (kind string, inst, cfg uintptr) {
+	k, sp, cp := verifResolve(x)
+	switch k {
+	case "stack":
+		inst = uintptr(unsafe.Pointer(sp))
+		if len(*sp) > 0 {
+			if c, ok := (*sp)[0].(*nodeConfig); ok && c != nil {
+				cfg = uintptr(unsafe.Pointer(c))
+			}
+		}
+		kind = k
+	case "cond":
+		inst = uintptr(unsafe.Pointer(cp))
+		if cp.cfg != nil {
+			cfg = uintptr(unsafe.Pointer(cp.cfg))
+		}
+		kind = k
+	}
+	return
+}
+
+// verifResolve finds the embedded pointer without using the library's
+// own converters (so that a broken converter cannot blind the dump).
+func verifResolve(x any) (kind string, sp *stack, cp *condition) {
+	if x == nil {
+		return
+	}
+	v := reflect.ValueOf(x)
+	for v.IsValid() && v.Kind() == reflect.Ptr {
+		if v.IsNil() {
+			return
+		}
+		v = v.Elem()
+	}
+	if !v.IsValid() || v.Kind() != reflect.Struct {
+		return
+	}
+	st := reflect.TypeOf(Stack{})
+	ct := reflect.TypeOf(Condition{})
+	switch {
+	case v.Type().ConvertibleTo(st):
+		s := v.Convert(st).Interface().(Stack)
+		if s.stack != nil {
+			return "stack", s.stack, nil
+		}
+		return "zero-stack", nil, nil
+	case v.Type().ConvertibleTo(ct):
+		c := v.Convert(ct).Interface().(Condition)
+		if c.condition != nil {
+			return "cond", nil, c.condition
+		}
+		return "zero-cond", nil, nil
+	}
+	return
+}
+
+/*
+VerifDump returns the raw state of x (one level: nested values are
+handed back raw in Slots / Ex for the caller to descend into).
+*/
+func VerifDump(x any) (st VerifState) {
+	k, sp, cp := verifResolve(x)
+	st.Kind = k
+	switch k {
+	case "stack":
+		st.Inst = uintptr(unsafe.Pointer(sp))
+		if len(*sp) == 0 {
+			st.Kind = "broken-stack"
+			return
+		}
+		c, ok := (*sp)[0].(*nodeConfig)
+		if !ok || c == nil {
+			st.Kind = "broken-stack"
+			st.Slots = append(st.Slots, (*sp)...)
+			return
+		}
+		st.Cfg = uintptr(unsafe.Pointer(c))
+		st.Fields = verifCfgFields(c)
+		st.Slots = append(st.Slots, (*sp)[1:]...)
+	case "cond":
+		st.Inst = uintptr(unsafe.Pointer(cp))
+		if cp.cfg != nil {
+			st.Cfg = uintptr(unsafe.Pointer(cp.cfg))
+			st.Fields = verifCfgFields(cp.cfg)
+		}
+		st.Kw = cp.kw
+		st.Op = cp.op
+		st.Ex = cp.ex
+	case "":
+		st.Kind = "other"
+	}
+	return
+}
+
+// verifCfgFields renders every field of the configuration record by
+// reflection, so that a field added later is included automatically.
+func verifCfgFields(c *nodeConfig) (out []VerifField) {
+	v := reflect.ValueOf(c).Elem()
+	t := v.Type()
+	for i := 0; i < t.NumField(); i++ {
+		f := v.Field(i)
+		vf := VerifField{Name: t.Field(i).Name}
+		vf.Text, vf.Ptr = verifRender(f, 0)
+		out = append(out, vf)
+	}
+	return
+}
+
+func verifRender(f reflect.Value, depth int) (text string, ptr uintptr) {
+	if depth > 4 {
+		return "...", 0
+	}
+	switch f.Kind() {
+	case reflect.String:
+		return strconv.Quote(f.String()), 0
+	case reflect.Bool:
+		return strconv.FormatBool(f.Bool()), 0
+	case reflect.Int, reflect.Int8, reflect.Int16, reflect.Int32, reflect.Int64:
+		return strconv.FormatInt(f.Int(), 10), 0
+	case reflect.Uint, reflect.Uint8, reflect.Uint16, reflect.Uint32, reflect.Uint64, reflect.Uintptr:
+		return strconv.FormatUint(f.Uint(), 10), 0
+	case reflect.Float32, reflect.Float64:
+		return strconv.FormatFloat(f.Float(), 'g', -1, 64), 0
+	case reflect.Func:
+		if f.IsNil() {
+			return "func:nil", 0
+		}
+		return "func:set", f.Pointer()
+	case reflect.Map:
+		if f.IsNil() {
+			return "map:nil", 0
+		}
+		keys := f.MapKeys()
+		ks := make([]string, 0, len(keys))
+		for _, k := range keys {
+			kt, _ := verifRender(k, depth+1)
+			vt, _ := verifRender(f.MapIndex(k), depth+1)
+			ks = append(ks, kt+"="+vt)
+		}
+		sort.Strings(ks)
+		s := "map{"
+		for i, k := range ks {
+			if i > 0 {
+				s += ","
+			}
+			s += k
+		}
+		return s + "}", f.Pointer()
+	case reflect.Slice, reflect.Array:
+		if f.Kind() == reflect.Slice && f.IsNil() {
+			return "[]nil", 0
+		}
+		s := "["
+		for i := 0; i < f.Len(); i++ {
+			if i > 0 {
+				s += ","
+			}
+			et, _ := verifRender(f.Index(i), depth+1)
+			s += et
+		}
+		return s + "]", 0
+	case reflect.Ptr:
+		if f.IsNil() {
+			return "ptr:nil", 0
+		}
+		e := f.Elem()
+		switch e.Type() {
+		case reflect.TypeOf(time.Time{}):
+			// lock stamp: presence and value (the clock is simulated)
+			tm := *(*time.Time)(unsafe.Pointer(f.Pointer()))
+			return "time:" + strconv.FormatInt(tm.UnixNano(), 10), 0
+		}
+		if e.Kind() == reflect.Struct && e.Type().PkgPath() == reflect.TypeOf(nodeConfig{}).PkgPath() {
+			// package-own record (logSystem): descend
+			s := e.Type().Name() + "{"
+			for i := 0; i < e.NumField(); i++ {
+				if i > 0 {
+					s += ","
+				}
+				ft, fp := verifRender(e.Field(i), depth+1)
+				s += e.Type().Field(i).Name + ":" + ft
+				if fp != 0 {
+					s += "@" + verifWellKnown(fp)
+				}
+			}
+			return s + "}", 0
+		}
+		// foreign pointer (sync.Mutex, log.Logger): presence + identity
+		return "ptr:" + e.Type().String(), f.Pointer()
+	case reflect.Interface:
+		if f.IsNil() {
+			return "iface:nil", 0
+		}
+		e := f.Elem()
+		if f.Type().Implements(reflect.TypeOf((*error)(nil)).Elem()) && f.CanInterface() {
+			return "err:" + strconv.Quote(f.Interface().(error).Error()), 0
+		}
+		if e.Kind() == reflect.Ptr && !e.IsNil() && e.Type().Implements(reflect.TypeOf((*error)(nil)).Elem()) {
+			// error held in an unexported field: read the text through the
+			// standard errorString layout when possible, else type only
+			if es := e.Elem(); es.Kind() == reflect.Struct && es.NumField() == 1 && es.Field(0).Kind() == reflect.String {
+				return "err:" + strconv.Quote(es.Field(0).String()), 0
+			}
+			return "err:" + e.Type().String(), e.Pointer()
+		}
+		t, p := verifRender(e, depth+1)
+		return "iface(" + e.Type().String() + "):" + t, p
+	case reflect.Struct:
+		s := f.Type().String() + "{"
+		for i := 0; i < f.NumField(); i++ {
+			if i > 0 {
+				s += ","
+			}
+			ft, _ := verifRender(f.Field(i), depth+1)
+			s += f.Type().Field(i).Name + ":" + ft
+		}
+		return s + "}", 0
+	case reflect.Chan, reflect.UnsafePointer:
+		if f.IsNil() {
+			return f.Kind().String() + ":nil", 0
+		}
+		return f.Kind().String() + ":set", f.Pointer()
+	}
+	return f.Kind().String(), 0
+}
+
+// verifWellKnown names the package's own loggers so that the dump of a
+// logger field is address-free.
+func verifWellKnown(p uintptr) string {
+	switch p {
+	case uintptr(unsafe.Pointer(devNull)):
+		return "devNull"
+	case uintptr(unsafe.Pointer(stdout)):
+		return "stdout"
+	case uintptr(unsafe.Pointer(stderr)):
+		return "stderr"
+	}
+	return "other"
+}
